@@ -360,8 +360,9 @@ class HistogramND(HistogramBase):
             if self.keep_missed:
                 self._missed += weight
         else:
-            self._frequencies[ixbin] += weight
+            # (the square first: if it does not fit, nothing has been changed yet)
             self._errors2[ixbin] += weight**2
+            self._frequencies[ixbin] += weight
         return ixbin
 
     def fill_n(
